@@ -223,11 +223,11 @@ def expr_of(pa, v, depth=0, at=None):
     (callee short name, arg trees...) using the effect log of the path.  A label is produced again on every loop
     iteration: it is resolved to the latest call carrying it before log position `at` (default: the end of the path,
     which is right for the returned value; pass the position of the use for values used inside a loop)."""
-    if depth > 12:
-        return v
+    if depth > 24:
+        return _strip_refs(v)
     if isinstance(v, tuple):
         if v and v[0] == "&" and len(v) == 2:
-            return expr_of(pa, v[1], depth + 1, at)
+            return expr_of(pa, v[1], depth, at)
         return tuple(expr_of(pa, x, depth + 1, at) for x in v)
     if isinstance(v, str) and (v.startswith("top:ret:") or v.startswith("sym:ret:")):
         lab = v[4:]
@@ -245,6 +245,14 @@ def expr_of(pa, v, depth=0, at=None):
             suffix = lab[len(key):]
             node = (short(e[1]),) + tuple(expr_of(pa, a, depth + 1, i) for a in e[2])
             return node if not suffix else (node, suffix)
+    return v
+
+
+def _strip_refs(v):
+    if isinstance(v, tuple):
+        if v and v[0] == "&" and len(v) == 2:
+            return _strip_refs(v[1])
+        return tuple(_strip_refs(x) for x in v)
     return v
 
 
